@@ -38,7 +38,7 @@ def run_config(ctx, config):
             opforms.body_form(ctx, "forwarder", inst, U, imp, fn, want)
             n += 1
         opforms.assign_ops(ctx, "assign-through-operator", config, w, q)
-    ctx.floor("%s: Add/Sub/Div<Self> forwarders" % config, n, 3 * (23 if config == "f64-all" else 19))
+    ctx.floor("%s: Add/Sub/Div<Self> forwarders" % config, n, 3 * {"f64-all": 23, "dec-all": 19}.get(config, 13))
     ov = G.overrides(ctx, "override", U, model.T_HRU, {"REF_UNIT"}, "HasRefUnit")
     for tk, (extra, imp) in ov.items():
         if set(extra) & {"add", "sub", "div", "equiv_amount"}:
@@ -93,7 +93,7 @@ def decimal_accuracy(ctx, config):
 
 
 def run(ctx):
-    for config in ("f64-all", "dec-all"):
+    for config in ("f64-all", "dec-all") + (("f64-nostd", "dec-nostd") if ctx.tier == "thorough" else ()):
         run_config(ctx, config)
     decimal_accuracy(ctx, "dec-all")
     ctx.rule_text = "3 generic value-flow obligations per configuration (2 guard cases each) + one forwarder and one output-type obligation per reference-unit type and operator"
